@@ -5,7 +5,7 @@
 set -e
 pid=$1; what=$2; tier=${3:-quick}
 wt=/var/tmp/wt-mut-$$
-vm=/var/tmp/verif-mut
+vm=${VMUT:-/var/tmp/verif-mut}   # set VMUT to run several self-tests side by side
 git -C /repo worktree add --detach $wt HEAD >/dev/null 2>&1
 trap 'git -C /repo worktree remove --force '$wt' >/dev/null 2>&1 || true' EXIT
 case "$what" in
